@@ -122,6 +122,9 @@ type Plan struct {
 	// Schedule is the explicit list of context switches (step, task) of a
 	// C12 run; empty for single-task properties.
 	Schedule [][2]int64 `json:"schedule,omitempty"`
+	// RunIndex is the index of the run in its batch (C12 picks its cold-start
+	// runs by it).
+	RunIndex uint64 `json:"run_index,omitempty"`
 	// Entry and Input make a run explicit in terms of bytes handed to one
 	// decode entry point (C04: gob encodings are not reproducible from a tape
 	// because encoding/gob writes maps in hash order).
@@ -245,6 +248,8 @@ type Ctx struct {
 	Schedule [][2]int64
 	// Verbose asks for the full trace in the record (replay, samples).
 	Verbose bool
+	// RunIndex is the index of the run in its batch.
+	RunIndex uint64
 	// Entry / Input: explicit bytes for one decode entry point (C04 replay).
 	Entry string
 	Input []byte
